@@ -1612,6 +1612,18 @@ class Engine:
         inline_ok = finfo.qualname in self.reg.inline
         verifying_self = finfo.qualname == ctx.func.split("[")[0].split("<")[0]
         if contract is not None and not inline_ok:
+            if dynamic and getattr(contract.impl, "dispatch", False) and isinstance(selfv, Obj) and not selfv.exact \
+                    and finfo.cls is not None:
+                # opt-in dynamic dispatch by case split on the receiver's class: every override has its own contract
+                for m in self.overriders(finfo, selfv.cls):
+                    classes = [c for c in m.cls.all_subclasses()
+                               if c.lookup(finfo.name) is m and c.is_subclass_of(selfv.cls)]
+                    if not classes:
+                        continue
+                    cond = z3.Or(*[self.tag_fn(selfv.ref) == self.class_id(c) for c in classes])
+                    if ctx.decide(cond):
+                        narrowed = Obj(m.cls, False, selfv.ref, None, ctx)
+                        return self.call_function(ctx, m, [narrowed] + list(args[1:]), kwargs)
             return self.apply_contract(ctx, finfo, contract, args, kwargs)
         # no contract: inline (nested defs, lambdas, private helpers, declared-inlinable accessors)
         if finfo.cls is not None and isinstance(selfv, Obj) and not selfv.exact and dynamic:
